@@ -318,8 +318,10 @@ static size_t vendor_gen(long idx, uint8_t *payload, char *human, size_t hn) { p
  * The library's own start-up dialogue reads the internal queue; an error-class message that arrives meanwhile (after the node
  * table is being read, i.e. after the queues were reset) belongs to the user's error queue and must still be there, once and
  * unchanged, when bidib_start_pointer returns — whatever the dialogue is waiting for at that moment.  Injected directly before
- * the answer to every downlink message from the first MSG_NODETAB_GETNEXT on; three error-class messages. */
-static int su_at, su_seen, su_armed, su_done, su_kind; static uint8_t su_msg[40]; static int su_len;
+ * the answer to every downlink message from the first MSG_NODETAB_GETNEXT on; three error-class messages.  Second half of the cases:
+ * the interface answers the second row request with MSG_NODETAB_COUNT (its table changed meanwhile), so the library abandons the
+ * pass and enumerates again — what reached the user queues before that still belongs to the user. */
+static int su_at, su_seen, su_armed, su_done, su_kind, su_restart, su_rows, su_restarted; static uint8_t su_msg[40]; static int su_len;
 static int su_hook(int node, const rc_msg_t *m) { (void) node;
 	if (m->type == MSG_NODETAB_GETNEXT) su_armed = 1;
 	if (!su_armed || su_done || su_seen++ != su_at) return 0;
@@ -328,11 +330,15 @@ static int su_hook(int node, const rc_msg_t *m) { (void) node;
 	sb_send(0, K[su_kind][0], &K[su_kind][1], KL[su_kind]);
 	su_len = rc_build_msg(su_msg, SB.n[0].addr, 0, K[su_kind][0], &K[su_kind][1], KL[su_kind]);
 	return 0; }
+static int su_hook2(int node, const rc_msg_t *m) {
+	int r = su_hook(node, m);
+	if (su_restart && !su_restarted && node == 0 && m->type == MSG_NODETAB_GETNEXT && ++su_rows == su_restart) { su_restarted = 1; uint8_t cnt = 4; sb_send(0, MSG_NODETAB_COUNT, &cnt, 1); return 1; }
+	return r; }
 static void startup_child(const void *job, size_t n) {
 	vs_dev_t devs[VS_MAXDEV]; int nd; size_t pl; const uint8_t *p = job_parse(job, n, devs, &nd, &pl);
-	su_kind = p[0]; su_at = p[1]; su_seen = 0; su_armed = 0; su_done = 0;
+	su_kind = p[0]; su_at = p[1]; su_seen = 0; su_armed = 0; su_done = 0; su_restart = pl > 2 ? p[2] : 0; su_rows = 0; su_restarted = 0;
 	hx_child_begin(NULL, 0, 0, NULL, 0, 0);
-	cm_std(&VM); cm_install(&VM); SB.on_msg = su_hook;
+	cm_std(&VM); cm_install(&VM); SB.on_msg = su_hook2;
 	int rc = hx_start_normal(0); hx_quiesce();
 	if (rc) res_infra("normal start failed");
 	if (!su_done) { res_printf("N 1\nO 0 0\n"); res_finish(); }
@@ -342,11 +348,13 @@ static void startup_child(const void *job, size_t n) {
 	int inmsg = 0; while ((m = bidib_read_message())) { if (m[0] + 1 == su_len && !memcmp(m + 3, su_msg + 3, (size_t) su_len - 3) && m[3] == su_msg[3]) inmsg++; free(m); }
 	static const char *KN[3] = {"MSG_SYS_ERROR", "MSG_NODE_NA", "MSG_BOOST_STAT(error state)"};
 	if (found != 1 || inmsg) { char cls[200]; snprintf(cls, sizeof cls, "wrong-destination type=%s during start-up expected=error-queue: an error-class message that arrived while the start-up dialogue was waiting is not in the error queue exactly once", KN[su_kind]);
-		res_violation(cls, "%s before the answer to downlink message #%d after the first node-table request: error queue holds it %d time(s), message queue %d time(s)", KN[su_kind], su_at, found, inmsg); }
-	res_printf("O %x %x\nC startup_injections 1\n", su_kind, su_at);
+		res_violation(cls, "%s before the answer to downlink message #%d after the first node-table request%s: error queue holds it %d time(s), message queue %d time(s)", KN[su_kind], su_at, su_restart ? ", node table restarted at the second row request" : "", found, inmsg); }
+	if (su_restart && !su_restarted) res_infra("the node-table restart did not take place");
+	res_printf("O %x %x\nC startup_injections 1\nC startup_restarts %d\n", su_kind + 16 * su_restart, su_at, su_restarted);
 	res_finish();
 }
-static size_t startup_gen(long idx, uint8_t *payload, char *human, size_t hn) { payload[0] = (uint8_t) (idx % 3); payload[1] = (uint8_t) (idx / 3); snprintf(human, hn, "error-class message kind %ld before the answer to downlink message #%ld of the start-up dialogue", idx % 3, idx / 3); return 2; }
+static size_t startup_gen(long idx, uint8_t *payload, char *human, size_t hn) { int rs = idx >= 120; idx %= 120; payload[0] = (uint8_t) (idx % 3); payload[1] = (uint8_t) (idx / 3); payload[2] = (uint8_t) (rs ? 2 : 0);
+	snprintf(human, hn, "error-class message kind %ld before the answer to downlink message #%ld of the start-up dialogue%s", idx % 3, idx / 3, rs ? ", node table restarted at the second row request" : ""); return 3; }
 void c06_register(void) { harness_register("c06.startup", startup_child); harness_register("c06.vendor", vendor_child); harness_register("c06.own", own_child); harness_register("c06.route", route_child); harness_register("c06.queue", queue_child); harness_register("c06.sched", sched_child); }
 int c06_run(const char *tier) {
 	int thorough = !strcmp(tier, "thorough"); q_depth = thorough ? 5 : 3;
@@ -357,13 +365,16 @@ int c06_run(const char *tier) {
 	ex_map(&r); execs += r.done; states += r.distinct_outcomes; transitions += route_count(); if (!r.exhaustive) exhaustive = 0;
 	ex_spec_t vd = { .harness = "c06.vendor", .ncases = 8, .gen = vendor_gen, .label = "c06.vendor" };
 	{ ex_map(&vd); execs += vd.done; if (!vd.exhaustive) exhaustive = 0; rep_note("c06.vendor: %ld configuration / connectivity variants, %ld vendor reports routed", vd.done, rep_get("vendor_cases")); }
-	{ ex_spec_t su = { .harness = "c06.startup", .ncases = 3 * 40, .gen = startup_gen, .label = "c06.startup" }; ex_map(&su); execs += su.done; if (!su.exhaustive) exhaustive = 0;
-	  rep_note("c06.startup: %ld error-class messages injected at every point of the start-up dialogue after the first node-table request", rep_get("startup_injections")); }
+	{ ex_spec_t su = { .harness = "c06.startup", .ncases = 2 * 3 * 40, .gen = startup_gen, .label = "c06.startup" }; ex_map(&su); execs += su.done; if (!su.exhaustive) exhaustive = 0;
+	  rep_note("c06.startup: %ld error-class messages injected at every point of the start-up dialogue after the first node-table request; in %ld of these runs the interface restarted its node table during the enumeration", rep_get("startup_injections"), rep_get("startup_restarts")); }
 	ex_spec_t q = { .harness = "c06.queue", .ncases = queue_count(), .gen = queue_gen, .label = "c06.queue" };
 	ex_map(&q); execs += q.done; states += q.distinct_outcomes; transitions += q.done; if (!q.exhaustive) exhaustive = 0;
 	e1_spec_t s = { .harness = "c06.sched", .param = "", .nparam = 0, .bound = thorough ? 3 : 2, .label = "c06.sched two readers vs receiver" };
 	e1_explore(&s); long ex = 0; for (int k = 0; k < 8; k++) ex += s.schedules_by_cost[k];
 	execs += ex; states += s.distinct_outcomes; transitions += s.choice_points; if (!s.exhaustive) exhaustive = 0;
+	{ e1_spec_t su = { .harness = "c06.sched", .param = "", .nparam = 0, .bound = thorough ? 2 : 1, .label = "c06.sched two readers vs receiver (points after unlocks)", .unlock_points = 1 };
+	  e1_explore(&su); long exu = 0; for (int k = 0; k < 8; k++) exu += su.schedules_by_cost[k]; execs += exu; states += su.distinct_outcomes; transitions += su.choice_points; if (!su.exhaustive) exhaustive = 0;
+	  rep_note("c06.sched with a scheduling point after every unlock: bound=%d, %ld schedules, %ld distinct outcomes", su.bound, exu, su.distinct_outcomes); }
 own_only:;
 	int defv = variant && (!strcmp(variant, "autop") || !strcmp(variant, "autoz"));      /* not repeated in the definedness builds */
 	long own = 0;
